@@ -14,6 +14,7 @@ Definition check_C10 := with_monitor holds_C10.
 Definition check_C11 := with_monitor holds_C11.
 Definition check_C12 := with_monitor holds_C12.
 Definition check_C13 := with_monitor holds_C13.
+Definition check_C14 := with_monitor holds_C14.
 Definition check_C15 := with_monitor holds_C15.
 Definition check_C17 := with_monitor holds_C17.
 Definition check_C18 := with_monitor holds_C18.
